@@ -10,8 +10,10 @@ predict_proba / transform / inverse_transform code runs):
   * a second equal estimator then runs a call sequence that contains every ordered pair of apply-type calls as
     neighbours (each call directly repeated, each call directly after every other call) plus a seeded random walk;
     every returned value must equal the reference of that call;
-  * a pickled-and-restored copy (taken right after fit, and again after the whole call sequence) must return the
-    references too;
+  * a pickled-and-restored copy taken right after fit must return the references too (every call on its own restored
+    copy); a copy taken after the whole call sequence must agree with the estimator it was copied from;
+  * thorough tier: for a rotating quarter of the configurations every ordered pair of calls additionally runs as
+    (i, j, i) on its own freshly fitted estimator;
   * estimators with an n_jobs parameter are fitted with n_jobs in {None, 1, 2, 4} under joblib's threading backend
     and must return the references;
   * an estimator that was fitted on other data before (and had set_params called with its own parameters) and is then
@@ -316,8 +318,10 @@ def as_container(X3, container, start=0):
 
 # =================================================================================================== protocol
 class Call:
-    def __init__(self, label, fn, inputs=None):
-        self.label, self.fn, self.inputs = label, fn, inputs
+    """one apply-type call: fn(fitted estimator, dict of caller objects) -> returned value"""
+
+    def __init__(self, label, fn):
+        self.label, self.fn = label, fn
 
 
 class Subject:
@@ -1093,6 +1097,12 @@ def panel_transformer_subjects(tier, seed):
                         lab = label if rs is None else f"{label[:-1]}{', ' if not label.endswith('()') else ''}random_state={rs})"
                         mk = make if rs is None else (lambda rs=rs, **o: make(random_state=rs, **o))
                         out.append(pt_subject(lab, mk, n_inst, n_cols, m, seed + len(out) % 5, container, fit=fit, **kw))
+                    if random and not first_shape_only and (thorough or (ci + fi) == 0):
+                        # random_state=None: the draw happens in fit, so only the purity clauses apply (repeat,
+                        # interleave, pickle, caller's data) -- references come from the same fitted estimator
+                        out.append(pt_subject(f"{label[:-1]}, random_state=None)", lambda **o: make(random_state=None, **o),
+                                              n_inst, n_cols, m, seed + len(out) % 5, container, fit=fit,
+                                              reproducible=False, **kw))
 
     both = (PT_FIT, PT_FIT_TRANSFORM)
     add("PAA(num_intervals=4)", lambda **o: PAA(num_intervals=4), fits=both)
@@ -1249,7 +1259,8 @@ def classifier_subjects(tier, seed):
 BOUND = (
     "Small-scope protocol on the real estimators: for each configuration references from fresh equal estimators (one "
     "call each), then on another equal estimator a call sequence containing every ordered pair of apply-type calls as "
-    "neighbours (+ a seeded random walk; thorough: also every ordered pair on its own fresh fit), bit-exact snapshots "
+    "neighbours (+ a seeded random walk; thorough: for a quarter of the configurations also ordered pairs of calls on "
+    "their own fresh fits), bit-exact snapshots "
     "of all caller objects around every fit and call, pickle round trips (right after fit and after the sequence), "
     "refit after other data + set_params, n_jobs in {None,1,2,4} under joblib's threading backend, global RNGs "
     "re-seeded before every fit. Forecasters (series of 9..21 points; RangeIndex from 0/3/5, int64, period; "
